@@ -8,7 +8,7 @@ open Flatland.Flat Flatland.Flat.Spec
 variable {env : Env} {sep : Str}
 
 /-- the member held under a declared field's key conforms to that field -/
-theorem okS_of_lookup {fields : List Schema} (hnd : (namesOf fields).Nodup)
+theorem okS_member_lookup {fields : List Schema} (hnd : (namesOf fields).Nodup)
     {ms : List (Str × Elem)} (hmem : ∀ p ∈ ms, OkSAny env fields p.1 p.2)
     {f : Schema} (hf : f ∈ fields) (hsome : f.name.isSome) {e : Elem}
     (hl : lookup (f.name.getD []) ms = some e) : OkS env f e := by
@@ -60,7 +60,7 @@ theorem lvl_prS : ∀ s : Schema, wf s = true → compoundFree s = true →
       rw [prSPick_eq, prSPick_eq, resolve_dictS, resolve_dictS]
       exact lvlEq_mapping nm u (isReq mode) fields hnd hsome ms hok.1 _ hst.1 hst.2
         (fun f hf e hl hs => ih f hf (wf_of_mem hw.1.1 f hf) (compoundFree_of_mem hcf f hf) u e
-          (okS_of_lookup hnd hok.2 hf (hsome f hf) hl) hs)
+          (okS_member_lookup hnd hok.2 hf (hsome f hf) hl) hs)
     | _ => simp [OkS] at hok
   | hcompound nm o k fields ih =>
     intro _ hcf
